@@ -152,12 +152,31 @@ def _apply(op, p, rec, psi, qubits, dims):
             pr = float(np.vdot(proj, proj).real)
             if pr < 1e-14:
                 continue
-            recorded = tuple(((1 - v if (m and v < 2) else v), dims[i]) for v, m, i in zip(vals, mask, idx))
-            if g.confusion_map:
-                raise NotImplementedError("confusion maps are handled by a dedicated stand-in")
-            r2 = {k: list(v) for k, v in rec.items()}
-            r2.setdefault(str(cirq.measurement_key_name(op0)), []).append(recorded)
-            out.append((p * pr, r2, (proj / np.sqrt(pr)).reshape(-1)))
+            post = (proj / np.sqrt(pr)).reshape(-1)
+            # confusion maps act on the *reported* digits only: distribute over the confused values
+            reported = [(pr, list(vals))]
+            for cidx, mat in (g.confusion_map or {}).items():
+                nxt = []
+                cdims = [dims[idx[k]] for k in cidx]
+                for pw, vv in reported:
+                    row = 0
+                    for k, d in zip(cidx, cdims):
+                        row = row * d + vv[k]
+                    for new_val, pc in enumerate(np.asarray(mat)[row]):
+                        if pc <= 1e-14:
+                            continue
+                        nv = list(vv)
+                        rem = new_val
+                        for k, d in reversed(list(zip(cidx, cdims))):
+                            nv[k] = rem % d
+                            rem //= d
+                        nxt.append((pw * float(pc), nv))
+                reported = nxt
+            for pw, vv in reported:
+                recorded = tuple(((1 - v if (m and v < 2) else v), dims[i]) for v, m, i in zip(vv, mask, idx))
+                r2 = {k: list(v) for k, v in rec.items()}
+                r2.setdefault(str(cirq.measurement_key_name(op0)), []).append(recorded)
+                out.append((p * pw, r2, post))
         return out
     if cirq.has_unitary(op):
         U = embed(cirq.unitary(op), list(op.qubits), qubits, dims)
